@@ -131,6 +131,24 @@ func c20Directed(full bool) []c20Case {
 				{Kind: "amend"}, {Kind: "version", Arg: "v3.2.0"}, {Kind: "tagger", DryRun: "false"}, {Kind: "commit"}, {Kind: "amend"}, {Kind: "version", Arg: "v3.2.1"}, {Kind: "tagger", DryRun: "false"}}})
 		}
 	}
+	// the user's environment: a global excludes file that matches tracked files; an origin with
+	// tags the clone lacks — the verdicts are those of the same histories without them
+	for _, envop := range []c20Op{{Kind: "userconfig"}, {Kind: "origin"}, {Kind: "origin", Arg: "fetched"}} {
+		for _, dry := range []string{"", "false"} {
+			for _, dirty := range []string{"", "modified", "staged-modified", "deleted", "untracked"} {
+				for _, req := range []string{"v3.3.0", "v3.2.0"} {
+					if !full && req == "v3.2.0" && dirty != "" {
+						continue
+					}
+					ops := []c20Op{{Kind: "commit"}, {Kind: "commit"}, {Kind: "tag", Arg: "v3.2.0", Back: 1}, {Kind: "version", Arg: req}, envop}
+					if dirty != "" {
+						ops = append(ops, c20Op{Kind: "dirty", Arg: dirty})
+					}
+					out = append(out, c20Case{Ops: append(ops, c20Op{Kind: "tagger", DryRun: dry}, c20Op{Kind: "tagger", DryRun: "false"})})
+				}
+			}
+		}
+	}
 	for _, dry := range []string{"", "true", "false"} {
 		for _, dirty := range []string{"", "untracked", "modified", "staged-new", "staged-modified", "deleted", "crlf-only", "mode-only"} {
 			for _, req := range []string{"v3.3.0", "v3.2.0", "v3.1.0", "banana"} {
@@ -165,6 +183,8 @@ func c20Gen(r *core.Rng) c20Case {
 			cs.Ops = append(cs.Ops, c20Op{Kind: "pack"})
 		case k == 12:
 			cs.Ops = append(cs.Ops, c20Op{Kind: core.Pick(r, []string{"detach", "detach", "attach", "amend", "amend"})})
+		case k == 11 && r.Chance(1, 3):
+			cs.Ops = append(cs.Ops, c20Op{Kind: core.Pick(r, []string{"userconfig", "origin"}), Arg: core.Pick(r, []string{"", "fetched"})})
 		case k == 11 && r.Chance(1, 2):
 			// a branch named like a tag the tool handles
 			cs.Ops = append(cs.Ops, c20Op{Kind: "branch", Arg: core.Pick(r, []string{"v3", "v4", "v3.2.0", "release"})})
@@ -297,6 +317,7 @@ func evalC20(c *core.Ctx, cs c20Case, id string) Outcome {
 	}
 	commits := 0
 	packed := false
+	hasOrigin := false
 	for i, op := range cs.Ops {
 		hist = append(hist, strings.TrimSpace(fmt.Sprintf("%s %s %s", op.Kind, op.Arg, op.DryRun)))
 		switch op.Kind {
@@ -373,6 +394,29 @@ func evalC20(c *core.Ctx, cs c20Case, id string) Outcome {
 				g.t++
 				g.git("commit", "-q", "--amend", "--allow-empty", "-m", fmt.Sprintf("amended %d", g.t))
 				out.Tags = append(out.Tags, "fault:head-amended")
+			}
+		case "userconfig":
+			// the user's own git configuration: a global excludes file whose patterns happen to match
+			// tracked files (git ignores such patterns for tracked files; so must the tool) — none of
+			// the untracked files this harness creates matches
+			os.WriteFile(filepath.Join(base, ".gitconfig"), []byte("[core]\n\texcludesFile = "+filepath.Join(base, ".gitignore_global")+"\n\tautocrlf = false\n[user]\n\tname = sim\n\temail = sim@example.invalid\n"), 0o644)
+			os.WriteFile(filepath.Join(base, ".gitignore_global"), []byte("other.*\n/file.txt\n*.md\n.DS_Store\n"), 0o644)
+			out.Tags = append(out.Tags, "fault:user-excludes-file-matches-tracked-files")
+		case "origin":
+			// the repository becomes a clone whose origin has tags the clone lacks (and, with Arg
+			// "diverged", an existing tag at another commit): nothing of that may leak in
+			if commits > 0 && !hasOrigin {
+				o := filepath.Join(base, "origin.git")
+				g.git("clone", "-q", "--bare", repo, o)
+				g.git("-C", o, "tag", "remote-only")
+				g.git("-C", o, "tag", "-a", "-m", "published elsewhere", "v3.0.0-remote.1")
+				g.git("-C", o, "tag", "v2.99.0")
+				g.git("remote", "add", "origin", o)
+				if op.Arg == "fetched" {
+					g.git("fetch", "-q", "--no-tags", "origin")
+				}
+				hasOrigin = true
+				out.Tags = append(out.Tags, "fault:origin-has-tags-the-clone-lacks")
 			}
 		case "branch":
 			g.git("branch", "-f", op.Arg, "HEAD")
